@@ -6,7 +6,7 @@ C03 at the level the driver executes: `Registry.St.run` of the moving average ag
 namespace SignaloModel.Registry
 open SignaloModel
 
-variable {K : Type} [Field K]
+variable {K : Type} [CommRing K] [Div K]
 
 theorem spec_sum_foldl (a : K) (l : List K) : l.foldl (· + ·) a = a + l.sum := by
   induction l generalizing a with
@@ -21,7 +21,7 @@ theorem spec_natCast_eq (n : Nat) : (Spec.natCast n : K) = (n : K) := by
   | zero => simp [Spec.natCast]
   | succ n ih => simp [Spec.natCast, ih]
 
-omit [Field K] in
+omit [CommRing K] [Div K] in
 theorem spec_window_eq (N : Nat) (xs : List K) : Spec.window N xs = Sinks.window N xs := rfl
 
 theorem minv_run_from (N : Nat) (hN : 1 ≤ N) (xs : List K) :
@@ -47,8 +47,8 @@ theorem mean_registry_forgets (N : Nat) (hN : 1 ≤ N) (xs ys : List K) (x : K)
   Sinks.mean_forgets N hN _ _ xs ys x (minv_run N hN xs) (minv_run N hN ys) hw
 
 /-- **C03, constants**: a constant signal is reproduced exactly from the first sample on
-(characteristic 0: the window length is invertible) -/
-theorem mean_registry_const [CharZero K] (N : Nat) (hN : 1 ≤ N) (c : K) (n k : Nat) (hk : k < n) :
+(fields of characteristic 0: the window length is invertible) -/
+theorem mean_registry_const {K : Type} [Field K] [CharZero K] (N : Nat) (hN : 1 ≤ N) (c : K) (n k : Nat) (hk : k < n) :
     Spec.windowMean N ((List.replicate n c).take (k + 1)) = c := by
   have h1 : (List.replicate n c).take (k + 1) = List.replicate (k + 1) c := by
     rw [List.take_replicate]; congr 1; omega
@@ -62,8 +62,9 @@ theorem mean_registry_const [CharZero K] (N : Nat) (hN : 1 ≤ N) (c : K) (n k :
 
 variable [LT K] [DecidableLT K] [BEq K] [Median.POrd K] [Classify.Cmp K]
 
-/-- **C03 at registry level**: for every width `N ≥ 1` and every input sequence over a field, the `k`-th
-output of the moving average is (sum of the last `min (k+1) N` samples) / (their number) -/
+/-- **C03 at registry level**: for every width `N ≥ 1` and every input sequence over a commutative ring with ANY
+division operation (a field's, or the truncating division of machine integers — "the sample type's own
+arithmetic"), the `k`-th output of the moving average is (sum of the last `min (k+1) N` samples) / (their number) -/
 theorem mean_registry_correct (N : Nat) (hN : 1 ≤ N) (xs : List K) :
     ∃ s' ys, (Cfg.mean N : Cfg K).init.run (sing xs) = some (s', sing ys) ∧ ys.length = xs.length ∧
       ∀ k x, xs[k]? = some x → ys[k]? = some (Spec.windowMean N (xs.take (k + 1))) := by
